@@ -107,6 +107,10 @@ pub fn stem_strategy() -> impl Strategy<Value = String> {
         1 => ("[a-z0-9]{1,4}", "[a-z0-9]{1,4}", "[a-z0-9]{1,4}").prop_map(|(a, b, c)| format!("{}.{}.{}", a, b, c)),
         1 => ("[a-z0-9]{1,4}", "[a-z0-9]{1,4}").prop_map(|(a, b)| format!("{}..{}", a, b)),
         2 => ("[A-Za-z0-9]{0,5}", prop::sample::select(vec!["é", "ж", "中", "ü", "日本", "ñandú"]), "[A-Za-z0-9]{0,5}").prop_map(|(a, m, b)| format!("{}{}{}", a, m, b)),
+        // characters that are legal in a request target and mean something to URL handling (the lookup is literal: no decoding).
+        // Not generated: whitespace, ' " & | ; - the file-ext dependency refuses such paths by design ("Path contains not allowed characters"),
+        // the statement's trees do not include them
+        1 => ("[A-Za-z0-9]{1,4}", prop::sample::select(vec!["%20", "%41", "%2e", "%", "+", "~", ",", "=", "@", "!", "$", "(", ")", "*", ":", "%25", "%2F"]), "[A-Za-z0-9]{0,4}").prop_map(|(a, m, b)| format!("{}{}{}", a, m, b)),
     ].prop_filter("leading dash or dot", |s| !s.starts_with('.') && !s.starts_with('-'))
 }
 
